@@ -19,6 +19,7 @@ Local Arguments length : simpl never.
 Local Arguments app : simpl never.
 Local Arguments zeros : simpl never.
 Local Arguments int_to_ba_z : simpl never.
+Local Arguments int_to_ba : simpl never.
 Local Arguments store_slice : simpl never.
 
 Ltac lk := repeat (rewrite lookup_set_same || rewrite lookup_set_other by (let H := fresh in intro H; discriminate H)).
@@ -174,4 +175,170 @@ Proof.
     rewrite (skipn_all2 hdr) by lia. now rewrite app_nil_r. }
   rewrite Hs.
   step. cbn [bin_eval as_int]. rewrite <- app_assoc. reflexivity.
+Qed.
+
+(* ------------------------------------------------------------------ the iSCSI TransportID builder *)
+
+Definition PAD4 := "scsi_cdb_persistentreservein._pad4_len".
+Notation PF_mti := PF_scsi_cdb_persistentreservein_PersistentReserveInReadFullStatus_marshall_transport_id.
+Definition T_tid := T_scsi_cdb_persistentreservein__PersistentReserveInReadFullStatus___transport_id_bits.
+
+Lemma mti_lookup : lookup MTI py_program = Some PF_mti.
+Proof. vm_compute. reflexivity. Qed.
+Lemma pad4_lookup : lookup PAD4 py_program = Some PF_scsi_cdb_persistentreservein__pad4_len.
+Proof. vm_compute. reflexivity. Qed.
+Lemma tid_table : lookup "scsi_cdb_persistentreservein.PersistentReserveInReadFullStatus._transport_id_bits" all_tables = Some T_tid.
+Proof. vm_compute. reflexivity. Qed.
+
+(* len(s) + 1 rounded up to a multiple of four *)
+Definition pad4 (n : nat) : nat := let l := n + 1 in if Nat.eqb (l mod 4) 0 then l else l + (4 - l mod 4).
+
+Lemma pad4_props n : pad4 n mod 4 = 0 /\ n + 1 <= pad4 n /\ pad4 n <= n + 4.
+Proof.
+  unfold pad4. cbv zeta. pose proof (Nat.mod_upper_bound (n + 1) 4 ltac:(lia)) as Hb.
+  destruct (Nat.eqb_spec ((n + 1) mod 4) 0) as [E|E].
+  - repeat split; [exact E|lia|lia].
+  - repeat split; [|lia|lia].
+    pose proof (Nat.div_mod (n + 1) 4 ltac:(lia)) as Hd.
+    replace (n + 1 + (4 - (n + 1) mod 4)) with (((n + 1) / 4 + 1) * 4) by lia. apply Nat.mod_mul. lia.
+Qed.
+
+Lemma pad4_call (name : bytes) f : 1 <= f ->
+  call_with py_program (run all_tables py_program f) PAD4 [PBytes name] = Ok (PInt (Z.of_nat (pad4 (length name)))).
+Proof.
+  intros Hf. destruct f as [|f]; [lia|].
+  unfold call_with. rewrite pad4_lookup. cbn [fn_params bind_params PF_scsi_cdb_persistentreservein__pad4_len].
+  rewrite run_S, exec_if. cbn [eval truthy]. cbn [fn_body PF_scsi_cdb_persistentreservein__pad4_len].
+  step. cbn [lookup String.eqb Ascii.eqb Bool.eqb len_eval bin_eval as_int].
+  step. cbn [bin_eval as_int]. change (Z.eqb 4 0) with false. cbn iota.
+  rewrite exec_block_cons, exec_if. cbn [eval]. lk. cbn [truthy].
+  set (n := length name).
+  assert (Hmod : ((Z.of_nat n + 1) mod 4)%Z = Z.of_nat ((n + 1) mod 4)).
+  { rewrite Nat2Z.inj_mod. f_equal. lia. }
+  unfold pad4. cbv zeta. fold n.
+  destruct (Nat.eqb_spec ((n + 1) mod 4) 0) as [E|E].
+  - rewrite Hmod, E. change (Z.eqb (Z.of_nat 0) 0) with true. cbn [negb]. rewrite exec_block_nil.
+    step. f_equal. f_equal. lia.
+  - rewrite Hmod. destruct (Z.eqb_spec (Z.of_nat ((n + 1) mod 4)) 0) as [E2|E2]; [lia|]. cbn [negb].
+    step. cbn [bin_eval as_int]. f_equal. f_equal.
+    pose proof (Nat.mod_upper_bound (n + 1) 4 ltac:(lia)). lia.
+Qed.
+
+Lemma skipn_repeat' {A} (x : A) n m : skipn n (repeat x m) = repeat x (m - n).
+Proof. revert n. induction m as [|m IH]; intros [|n]; try reflexivity. cbn [repeat skipn Nat.sub]. apply IH. Qed.
+
+Lemma zeros_S n : zeros (S n) = 0%N :: zeros n.
+Proof. reflexivity. Qed.
+
+(* iSCSI TransportID, TPID format 00b (name only): [05h, 00h, ADDITIONAL LENGTH (2 bytes), name, NUL padding] where ADDITIONAL LENGTH is
+   the number of bytes that follow it = len(name)+1 rounded up to a multiple of four — for every (ASCII) name *)
+Theorem iscsi_transport_id_format0 : forall (s : string) (name : bytes) f,
+  bytes_of_string s = Some name -> 2 <= f ->
+  (Z.of_nat (length name) <= 1000000)%Z ->
+  call_fun all_tables py_program f MTI [PDict [("protocol_id", PInt 5); ("iscsi_name", PStr s)]]
+  = Ok (PBytes ([5%N; 0%N] ++ int_to_ba (N.of_nat (pad4 (length name))) 2 ++ name ++ zeros (pad4 (length name) - length name))%list).
+Proof.
+  intros s name f Hs Hf Hn. destruct f as [|f]; [lia|].
+  pose proof (pad4_props (length name)) as (Hp4 & Hplo & Phi). set (n := length name) in *. set (pad := pad4 n) in *.
+  unfold call_fun, call_with. rewrite mti_lookup. cbn [fn_params bind_params PF_mti].
+  rewrite run_S, exec_if. cbn [eval truthy]. cbn [fn_body PF_mti].
+  step. cbn [lookup String.eqb Ascii.eqb Bool.eqb index_eval].
+  rewrite exec_block_cons, exec_if. cbn [eval]. lk. cbn [cmp_eval py_eq as_int]. change (Z.eqb 5 5) with true. cbn [negb truthy].
+  rewrite exec_block_nil.
+  rewrite exec_block_cons, exec_if. cbn [eval]. lk. cbn [cmp_eval py_eq as_int]. change (Z.eqb 5 0) with false. cbn [truthy].
+  rewrite exec_block_cons, exec_if. cbn [eval]. lk. cbn [cmp_eval py_eq as_int]. change (Z.eqb 5 3) with false. cbn [truthy].
+  rewrite exec_block_cons, exec_if. cbn [eval]. lk. cbn [cmp_eval py_eq as_int]. change (Z.eqb 5 4) with false. cbn [truthy].
+  rewrite exec_block_cons, exec_if. cbn [eval]. lk. cbn [cmp_eval py_eq as_int]. change (Z.eqb 5 5) with true. cbn [truthy].
+  (* the two consistency guards *)
+  rewrite exec_block_cons, exec_if. cbn [eval]. lk. cbn [lookup String.eqb Ascii.eqb Bool.eqb truthy]. rewrite exec_block_nil.
+  rewrite exec_block_cons, exec_if. cbn [eval]. lk. cbn [lookup String.eqb Ascii.eqb Bool.eqb truthy].
+  step. cbn [lookup String.eqb Ascii.eqb Bool.eqb index_eval]. rewrite exec_block_nil.
+  step. cbn [encode_str_eval]. rewrite Hs.
+  (* result = bytearray(4 + _pad4_len(_name)) *)
+  step. pose proof (pad4_call name f ltac:(lia)) as Hpc. unfold PAD4 in Hpc. rewrite Hpc. clear Hpc. fold n. fold pad. cbn [bin_eval as_int bytearray_eval].
+  destruct (Z.ltb_spec (4 + Z.of_nat pad) 0); [lia|]. destruct (Z.ltb_spec 1048576 (4 + Z.of_nat pad)); [lia|].
+  replace (Z.to_nat (4 + Z.of_nat pad)) with (S (S (S (S pad)))) by lia.
+  (* encode_dict(data, _transport_id_bits, result): only protocol_id is in the table *)
+  step. cbn [lookup String.eqb Ascii.eqb Bool.eqb]. rewrite tid_table. unfold with_var. lk.
+  assert (Henc : encode_pv [("protocol_id", PInt 5); ("iscsi_name", PStr s)] T_tid (zeros (S (S (S (S pad))))) = Ok (5%N :: 0%N :: 0%N :: 0%N :: zeros pad)).
+  { unfold encode_pv, T_tid, T_scsi_cdb_persistentreservein__PersistentReserveInReadFullStatus___transport_id_bits.
+    cbn [lookup String.eqb Ascii.eqb Bool.eqb as_int]. change (Z.ltb 5 0) with false. cbn iota. change (Z.to_N 5) with 5%N.
+    unfold encode1. cbn [ctz pos_ctz]. change (nbytes 15) with 1. rewrite !zeros_S. change (length (0%N :: 0%N :: 0%N :: 0%N :: zeros pad)) with (S (S (S (S (length (zeros pad)))))).
+    cbn [N.to_nat Nat.add Nat.leb]. reflexivity. }
+  rewrite Henc. clear Henc.
+  (* result[2:4] = scsi_int_to_ba(len(result) - 4, 2) *)
+  step. cbn [len_eval bin_eval as_int]. change (length (5%N :: 0%N :: 0%N :: 0%N :: zeros pad)) with (S (S (S (S (length (zeros pad)))))). rewrite zeros_length.
+  unfold with_var. lk.
+  assert (Hi : int_to_ba_z (Z.of_nat (S (S (S (S pad)))) - 4) 2 = int_to_ba (N.of_nat pad) 2).
+  { unfold int_to_ba_z. destruct (Z.leb_spec 0 (Z.of_nat (S (S (S (S pad)))) - 4)); [|lia].
+    change (Z.to_nat (Z.min (Z.max 2 0) 4096)) with 2. f_equal. lia. }
+  rewrite Hi.
+  assert (Hs1 : forall a b : N, store_slice (PBytes (5%N :: 0%N :: 0%N :: 0%N :: zeros pad)) (Some (PInt 2)) (Some (PInt 4)) (PBytes [a; b])
+                = Ok (PBytes (5%N :: 0%N :: a :: b :: zeros pad))).
+  { intros a b. unfold store_slice. cbn [opt_int as_int]. unfold clip.
+    change (length (5%N :: 0%N :: 0%N :: 0%N :: zeros pad)) with (S (S (S (S (length (zeros pad)))))). rewrite zeros_length.
+    change (Z.ltb 2 0) with false. change (Z.ltb 4 0) with false. cbn iota.
+    replace (Z.to_nat (Z.min 2 (Z.of_nat (S (S (S (S pad))))))) with 2 by lia. replace (Z.to_nat (Z.min 4 (Z.of_nat (S (S (S (S pad))))))) with 4 by lia.
+    reflexivity. }
+  assert (Hl2 : exists a b, int_to_ba (N.of_nat pad) 2 = [a; b]) by (eexists; eexists; reflexivity).
+  destruct Hl2 as (a & b & Hab). rewrite Hab, Hs1.
+  (* result[4 : len(_name) + 4] = _name *)
+  step. cbn [len_eval bin_eval as_int]. unfold with_var. lk. fold n.
+  assert (Hs2 : store_slice (PBytes (5%N :: 0%N :: a :: b :: zeros pad)) (Some (PInt 4)) (Some (PInt (Z.of_nat n + 4))) (PBytes name)
+                = Ok (PBytes (5%N :: 0%N :: a :: b :: name ++ zeros (pad - n))%list)).
+  { unfold store_slice. cbn [opt_int as_int]. unfold clip.
+    change (length (5%N :: 0%N :: a :: b :: zeros pad)) with (S (S (S (S (length (zeros pad)))))). rewrite zeros_length.
+    change (Z.ltb 4 0) with false. destruct (Z.ltb_spec (Z.of_nat n + 4) 0); [lia|]. cbn iota.
+    replace (Z.to_nat (Z.min 4 (Z.of_nat (S (S (S (S pad))))))) with 4 by lia.
+    replace (Z.to_nat (Z.min (Z.of_nat n + 4) (Z.of_nat (S (S (S (S pad))))))) with (4 + n) by lia.
+    replace (Nat.max 4 (4 + n)) with (S (S (S (S n)))) by lia. cbn [firstn skipn]. f_equal. f_equal.
+    change ((5%N :: 0%N :: a :: b :: name ++ zeros (pad - n))%list) with ([5%N; 0%N; a; b] ++ (name ++ zeros (pad - n)))%list.
+    change ([5%N; 0%N; a; b] ++ name ++ skipn n (zeros pad))%list with ([5%N; 0%N; a; b] ++ (name ++ skipn n (zeros pad)))%list.
+    f_equal. f_equal. unfold zeros. rewrite skipn_repeat'. reflexivity. }
+  rewrite Hs2. rewrite !exec_block_nil.
+  step. reflexivity.
+Qed.
+
+(* what a reader of SPC finds in that TransportID: ADDITIONAL LENGTH (bytes 2..3) is the number of bytes that follow it, the whole
+   is a multiple of four bytes long, the name starts at byte 4 and is followed by at least one NUL *)
+Definition iscsi_tid0 (name : bytes) : bytes :=
+  ([5%N; 0%N] ++ int_to_ba (N.of_nat (pad4 (length name))) 2 ++ name ++ zeros (pad4 (length name) - length name))%list.
+
+Theorem iscsi_tid0_honest : forall name : bytes, (Z.of_nat (length name) <= 65000)%Z ->
+  let t := iscsi_tid0 name in
+  length t = 4 + pad4 (length name) /\ length t mod 4 = 0 /\
+  ba_to_int (firstn 2 (skipn 2 t)) = N.of_nat (length t - 4) /\
+  firstn (length name) (skipn 4 t) = name /\ nth (4 + length name) t 1%N = 0%N.
+Proof.
+  intros name Hn t. pose proof (pad4_props (length name)) as (Hm & Hlo & Hhi). set (n := length name) in *. set (pad := pad4 n) in *.
+  assert (Hl2 : exists a b, int_to_ba (N.of_nat pad) 2 = [a; b]) by (eexists; eexists; reflexivity).
+  destruct Hl2 as (a & b & Hab).
+  assert (Ht : t = (5%N :: 0%N :: a :: b :: name ++ zeros (pad - n))%list) by (unfold t, iscsi_tid0; fold n; fold pad; rewrite Hab; reflexivity).
+  assert (Hlen : length t = 4 + pad).
+  { rewrite Ht. change (length (5%N :: 0%N :: a :: b :: name ++ zeros (pad - n))%list) with (S (S (S (S (length (name ++ zeros (pad - n))%list))))).
+    rewrite app_length, zeros_length. fold n. lia. }
+  split; [exact Hlen|]. split.
+  { rewrite Hlen. replace (4 + pad) with (pad + 1 * 4) by lia. rewrite Nat.mod_add by lia. exact Hm. }
+  split.
+  { rewrite Hlen. replace (4 + pad - 4) with pad by lia. rewrite Ht. cbn [skipn firstn]. rewrite <- Hab.
+    rewrite ba_to_int_to_ba. apply N.mod_small. change (256 ^ N.of_nat 2)%N with 65536%N. lia. }
+  split.
+  { rewrite Ht. cbn [skipn]. unfold n. rewrite firstn_app, Nat.sub_diag, firstn_all. cbn [firstn]. apply app_nil_r. }
+  rewrite Ht. change (4 + n) with (S (S (S (S n)))). cbn [nth]. rewrite app_nth2 by (fold n; lia). fold n. rewrite Nat.sub_diag.
+  destruct (pad - n) as [|k] eqn:E; [lia|]. reflexivity.
+Qed.
+
+(* REGISTER AND MOVE with such a TransportID, closed form: the 24-byte list with TRANSPORTID PARAMETER DATA LENGTH = 4 + pad4(len name),
+   then the TransportID *)
+Theorem prout_register_and_move_iscsi : forall (op : pv) (sa : Z) (data : list (string * pv)) (s : string) (name hdr : bytes) f,
+  opcode_has op "REGISTER_AND_MOVE" sa ->
+  lookup "transport_id" data = Some (PDict [("protocol_id", PInt 5); ("iscsi_name", PStr s)]) ->
+  bytes_of_string s = Some name -> (Z.of_nat (length name) <= 65000)%Z -> 2 <= f ->
+  encode_pv (dict_set data "transportid_length" (PInt (Z.of_nat (4 + pad4 (length name))))) T_ram (zeros 24) = Ok hdr ->
+  call_fun all_tables py_program (S f) PROUT [op; PInt sa; PDict data] = Ok (PBytes (hdr ++ iscsi_tid0 name)%list).
+Proof.
+  intros op sa data s name hdr f Hop Htid Hs Hn Hf Henc.
+  apply (prout_register_and_move_exact op _ sa data (iscsi_tid0 name) hdr f Hop Htid eq_refl).
+  - apply iscsi_transport_id_format0; [exact Hs|exact Hf|lia].
+  - destruct (iscsi_tid0_honest name Hn) as (Hl & _). rewrite Hl. exact Henc.
 Qed.
